@@ -698,6 +698,94 @@ def _short(s, n=600):
     return t if len(t) <= n else t[:n] + "..."
 
 
+# ============================================================== forked runner
+def forked_map(fn, items, timeout=30, mem_gb=6, max_bad=6):
+    """run fn(item) for every item in a forked child (a mutated tree may hang
+    or exhaust memory); returns list of ("ok", result) | ("timeout"|"crash", msg)"""
+    import pickle
+    import resource
+    import select
+    import signal
+    out = [None] * len(items)
+    start = 0
+    while start < len(items):
+        r, w = os.pipe()
+        pid = os.fork()
+        if pid == 0:                                   # child
+            os.close(r)
+            try:
+                lim = mem_gb * (1 << 30)
+                resource.setrlimit(resource.RLIMIT_AS, (lim, lim))
+            except Exception:
+                pass
+
+            def on_alarm(*a):
+                raise TimeoutError()
+            signal.signal(signal.SIGALRM, on_alarm)
+            wf = os.fdopen(w, "wb")
+            nbad = [sum(1 for o in out if o is not None and o[0] != "ok")]
+            for k in range(start, len(items)):
+                if nbad[0] >= max_bad:
+                    break
+                pickle.dump(("start", k), wf)
+                wf.flush()
+                signal.alarm(timeout)
+                try:
+                    res = ("ok", fn(items[k]))
+                except TimeoutError:
+                    res = ("timeout", "no answer within %ds" % timeout)
+                    nbad[0] += 1
+                except MemoryError:
+                    res = ("crash", "MemoryError")
+                except BaseException as e:             # noqa
+                    res = ("crash", "%s: %s" % (type(e).__name__, str(e)[:300]))
+                signal.alarm(0)
+                try:
+                    pickle.dump(("done", k, res), wf)
+                except Exception as e:
+                    pickle.dump(("done", k, ("crash", "unpicklable result: %s" % e)), wf)
+                wf.flush()
+            wf.close()
+            os._exit(0)
+        os.close(w)
+        rf = os.fdopen(r, "rb")
+        inflight = None
+        last = start - 1
+        while True:
+            ready, _, _ = select.select([rf], [], [], timeout + 30)
+            if not ready:
+                try:
+                    os.kill(pid, 9)
+                except OSError:
+                    pass
+                break
+            try:
+                msg = pickle.load(rf)
+            except EOFError:
+                break
+            except Exception:
+                break
+            if msg[0] == "start":
+                inflight = msg[1]
+            else:
+                out[msg[1]] = msg[2]
+                last = msg[1]
+                inflight = None
+        rf.close()
+        try:
+            os.waitpid(pid, 0)
+        except OSError:
+            pass
+        if sum(1 for o in out if o is not None and o[0] != "ok") >= max_bad:
+            break                     # enough evidence; do not spend the whole budget on time-outs
+        if inflight is not None and out[inflight] is None:
+            out[inflight] = ("crash", "the process died or hung while running this case")
+            start = inflight + 1
+        else:
+            start = last + 1 if last + 1 > start else start + 1
+    return [o if o is not None else ("skipped", "not run: too many cases failed before") for o in out]
+
+
 # ================================================================= K: summaries
 def probes():
     """name -> callable returning a list of failure strings"""
@@ -1102,7 +1190,24 @@ REFUTED_REPLAY = {
 
 
 # ========================================================================= run
+def _cleanup():
+    import glob
+    gen = os.path.join(vlib.COQ, "Gen")
+    for f in glob.glob(os.path.join(gen, "*_%s*" % TAG)) + glob.glob(os.path.join(gen, ".*_%s*" % TAG)):
+        try:
+            os.remove(f)
+        except OSError:
+            pass
+
+
 def run(ctx):
+    try:
+        _run(ctx)
+    finally:
+        _cleanup()
+
+
+def _run(ctx):
     import qutip  # noqa: F401
     rng = random.Random(ctx.seed * 104729 + 4)
     ctx.cov["rule"] = (
@@ -1130,15 +1235,20 @@ def run(ctx):
     results = {}
 
     def run_all(filter_prefix=None, origin="oracle"):
-        for sc in scs:
-            if filter_prefix and not sc.name.startswith(filter_prefix):
+        todo = [sc for sc in scs if sc.name not in results
+                and not (filter_prefix and not sc.name.startswith(filter_prefix))]
+        rr = forked_map(run_scenario, todo, timeout=40)
+        for sc, (st_, val) in zip(todo, rr):
+            if st_ == "ok":
+                results[sc.name] = val
+            elif st_ == "skipped":
+                results[sc.name] = ([], None, True, {})
                 continue
-            if sc.name in results:
-                continue
-            try:
-                results[sc.name] = run_scenario(sc)
-            except Exception as e:
-                results[sc.name] = ([], "harness: %s" % traceback.format_exc()[-400:], True, {})
+            else:
+                results[sc.name] = ([], "%s: %s" % (st_, val), True, {})
+                ctx.violation(sc.site, "scenario-" + st_,
+                              "%s: the call does not complete (%s: %s)" % (sc.name, st_, val),
+                              {"scenario": sc.name, "status": st_, "message": val})
             findings, err, same, before = results[sc.name]
             report_scenario(ctx, sc, findings, err, same, before, origin)
 
@@ -1186,15 +1296,17 @@ def run(ctx):
     # ---- 3. K: summaries
     P = probes()
     nprobe = 0
-    for name in sorted(used_probes):
+    pnames = sorted(used_probes)
+    for name in pnames:
         if name not in P:
             ctx.violation("summary:" + name, "no-probe", "effect summary `%s` has no confirmation probe" % name,
                           {"probe": name}, found_input=False)
+    pnames = [n for n in pnames if n in P]
+    pres = forked_map(lambda n: P[n](), pnames, timeout=60)
+    for name, (st_, val) in zip(pnames, pres):
+        if st_ == "skipped":
             continue
-        try:
-            bad = P[name]()
-        except Exception as e:
-            bad = ["probe raised %s: %s" % (type(e).__name__, str(e)[:200])]
+        bad = val if st_ == "ok" else ["probe %s: %s" % (st_, val)]
         nprobe += 1
         ctx.count_case(("probe", name))
         ctx.cov["traces_validated_against_impl"] += 1
@@ -1226,13 +1338,16 @@ def run(ctx):
     mism = 0
     dist = {"len": {}, "inplace": 0}
     if vals is not None:
-        for p, v in zip(progs, vals):
+        ires = forked_map(seq_run_impl, progs, timeout=20)
+        for p, v, (st_, val) in zip(progs, vals, ires):
             mw, menv = vlib.parse_coq_value(v)
             model = (sorted(mw), canon_partition(list(menv)))
-            try:
-                iw, ipart, shared = seq_run_impl(p)
-            except Exception as e:
-                iw, ipart, shared = None, None, ["implementation raised %s: %s" % (type(e).__name__, e)]
+            if st_ == "skipped":
+                continue
+            if st_ == "ok":
+                iw, ipart, shared = val
+            else:
+                iw, ipart, shared = None, None, ["implementation %s: %s" % (st_, val)]
             nontriv = any(op in ("iadd", "imul2", "imatmul") for op, _, _, _ in p)
             dist["len"][len(p)] = dist["len"].get(len(p), 0) + 1
             dist["inplace"] += 1 if nontriv else 0
